@@ -902,6 +902,7 @@ def emit_lean(t):
     A("   `n! \"text\"` = the name spelling `text` (Iox2/Model/Ffi.lean). -/")
     A("namespace Iox2.Gen.FfiErrors")
     A("open Iox2.Ffi")
+    A("set_option maxRecDepth 65536   -- long literal lists")
     A("")
     A("/-- `pub const IOX2_OK: c_int` -/")
     A(f"def IOX2_OK : Int := {t['ok']}")
